@@ -171,7 +171,7 @@ func main() {
 		tier = "quick"
 	}
 	run = core.NewRun("C15", tier, "model_checking")
-	run.Rule = "every composition of Names.tla (27 leaf frames (among them the same table name under two qualifications) and 30 expression positions x 26 expression shapes, x 21 kinds of hole, depth <= 2 quick / 3 thorough) x 4 layouts x 6 extraction functions; non-trivial = a composition of depth >= 2 or one with aliases, literals or shared names"
+	run.Rule = "every composition of Names.tla (27 leaf frames (among them the same table name under two qualifications) and 30 expression positions x 26 expression shapes, x 24 kinds of hole, depth <= 2 quick / 3 thorough; every SELECT composition also in three far contexts) x 4 layouts x 6 extraction functions; non-trivial = a composition of depth >= 2 or one with aliases, literals or shared names"
 	run.Assumptions = []string{
 		"a CTE referenced in FROM is a name written in a table position and is expected as written",
 		"the unqualified table variant reports a qualified table as written (schema.name); column qualifiers are reported as written (an alias used as a qualifier is a qualifier, not an extracted table)",
